@@ -1,0 +1,85 @@
+//! Verification hooks (compiled only with `--cfg leptos_verif`; add-only).
+//!
+//! A *yield point* is a call to a harness-installed callback at a named place
+//! between two synchronisation operations.  With no callback installed it is a
+//! single relaxed atomic load.  Inside the callback a test harness may block the
+//! calling thread and let another thread run, i.e. pre-empt the caller exactly
+//! at that point.  No lock of this module is held while the callback runs.
+//!
+//! Names (`site:position`):
+//! * `ready:loaded`, `ready:pushed`        — `AsyncDerivedReadyFuture::poll`
+//! * `await:loaded`, `await:pushed`        — `AsyncDerivedFuture::poll`
+//! * `await_ref:loaded`, `await_ref:pushed`— `AsyncDerivedRefFuture::poll`
+//! * `notify_subs:enter`, `notify_subs:stored`, `notify_subs:drained`
+//!                                         — `ArcAsyncDerived::notify_subs`
+//! * `notify:stored`                       — `channel::Sender::notify`
+//! * `recv:registered`                     — `channel::Receiver::poll_next`
+//! * `memo:before-take`, `memo:taken`, `memo:before-reactivity`,
+//!   `memo:reactivity-held`, `memo:released` — `MemoInner::update_if_necessary`
+use std::sync::{
+    atomic::{AtomicBool, Ordering},
+    Arc, RwLock,
+};
+
+/// The callback type: receives the name of the yield point.
+pub type YieldHook = Arc<dyn Fn(&'static str) + Send + Sync>;
+
+static INSTALLED: AtomicBool = AtomicBool::new(false);
+static HOOK: RwLock<Option<YieldHook>> = RwLock::new(None);
+
+/// Installs (or, with `None`, removes) the process-wide yield callback.
+pub fn set_yield_hook(hook: Option<YieldHook>) {
+    let mut slot = HOOK.write().unwrap_or_else(|e| e.into_inner());
+    INSTALLED.store(hook.is_some(), Ordering::SeqCst);
+    *slot = hook;
+}
+
+/// Calls the installed callback, if any, with `name`.
+#[inline]
+pub(crate) fn yield_point(name: &'static str) {
+    if INSTALLED.load(Ordering::Relaxed) {
+        let hook = HOOK.read().unwrap_or_else(|e| e.into_inner()).clone();
+        if let Some(hook) = hook {
+            hook(name)
+        }
+    }
+}
+
+/// The crate-private notification channel used by effects and async derived
+/// values (`channel.rs`), exposed so that a harness can drive
+/// `Sender::notify` against `Receiver::poll_next` directly.
+pub fn verif_channel() -> (VerifSender, VerifReceiver) {
+    let (tx, rx) = crate::channel::channel();
+    (VerifSender(tx), VerifReceiver(rx))
+}
+
+/// Wrapper around the crate-private `channel::Sender`.
+pub struct VerifSender(crate::channel::Sender);
+
+impl VerifSender {
+    /// `Sender::notify`
+    pub fn notify(&mut self) {
+        self.0.notify()
+    }
+}
+
+/// Wrapper around the crate-private `channel::Receiver`.
+pub struct VerifReceiver(crate::channel::Receiver);
+
+impl futures::Stream for VerifReceiver {
+    type Item = ();
+
+    fn poll_next(
+        mut self: std::pin::Pin<&mut Self>,
+        cx: &mut std::task::Context<'_>,
+    ) -> std::task::Poll<Option<()>> {
+        std::pin::Pin::new(&mut self.0).poll_next(cx)
+    }
+}
+
+impl VerifSender {
+    /// A second handle on the same channel (see `Sender::verif_clone`).
+    pub fn clone_handle(&self) -> Self {
+        VerifSender(self.0.verif_clone())
+    }
+}
